@@ -188,6 +188,7 @@ static void v_load_text(void)
 }
 enum { DF_RANDOM, DF_SMALLALPHA, DF_SKEWED, DF_RUNS, DF_LZ, DF_TEXT, DF_INTS, DF_MIX, DF_ISLANDS, DF_ZERO, DF_LONGREP, DF_REPBAIT, DF_SPARSE, DF_NB };
 static const char* const v_df_name[DF_NB] = { "random", "smallalpha", "skewed", "runs", "lz", "text", "ints", "mix", "islands", "zero", "longrep", "repbait", "sparse" };
+static int v_repbait_force;   /* 1: force the "one long literal run" sub-mode of DF_REPBAIT */
 static void gen_data(vrng* r, uint8_t* buf, size_t n, int fam);
 static void gen_lz(vrng* r, uint8_t* buf, size_t n)
 {   /* literals + matches with controlled offset / length distributions */
@@ -246,7 +247,7 @@ static void gen_data(vrng* r, uint8_t* buf, size_t n, int fam)
     case DF_REPBAIT: { /* repcode-history bait: periodic data whose period flips among a few values (rep1/rep2/rep3 traffic,
                           matches after 0 / 1 literal), interrupted by incompressible stretches that contain isolated short
                           matches at fresh distances (sub-block / raw-tail decisions with pending sequences) */
-        if (n >= 200000 && vr_chance(r, 1, 4)) {   /* sub-mode "one long literal run": [many short sequences alternating between two offsets] [noise of exactly L bytes,
+        if (n >= 200000 && (v_repbait_force == 1 || vr_chance(r, 1, 4))) {   /* sub-mode "one long literal run": [many short sequences alternating between two offsets] [noise of exactly L bytes,
                                                      * L around 65536] [the same period again, repcode matches only], so that a block carries a sequence with a 16-bit-overflowing
                                                      * literal length in the middle of a long repcode history, and the following block depends on that history */
             size_t const p1 = 5 + vr_u(r, 3000), p2 = p1 + 1 + vr_u(r, 40); size_t const a = 20000 + vr_u(r, 40000); static const size_t Ls[] = { 65535, 65536, 65536, 65537, 65538, 65534 }; size_t const L = Ls[vr_u(r, 6)];
